@@ -39,7 +39,7 @@ func init() {
 			"shared *Element (affine, λ-scaled, identity forms), shared *Scalar, shared message/DST/encoding slices in all layouts (len=cap, spare capacity 1/8/64, interior sub-slice, zero-length of a non-empty array, DST lengths on both sides of 255), shared [32]byte arrays. " +
 			"Each program starts by calling every function once in the same order, and half of the runs are concurrent-first (nothing of the library has run in the process before the goroutines start), so that first uses coincide. Every exported function and method is in the mix (constructors, Base, Identity, Set, Copy, Add, Subtract, Double, Negate, Multiply, Equal, IsIdentity, all encoders/decoders, HashToGroup, EncodeToGroup, HashToScalar, all scalar operations, Pow, CSelect, LessOrEqual, Bits, Random, Order). " +
 			"Oracle: zero race-detector reports with a frame of the module under test; every call's result equals the result of the same call sequence run alone beforehand; the package-level identity and error variables are unchanged. " +
-			"The detector is armed first with a deliberate race in harness code and the run is inconclusive if that is not reported. evaluations = API calls made concurrently; non-trivial = calls taking a shared argument; distinct = distinct (function, shared-argument) pairs exercised concurrently.",
+			"A storm of 16 goroutines x thousands of concurrent Random calls on the real entropy source must not return any scalar twice. The detector is armed first with a deliberate race in harness code and the run is inconclusive if that is not reported. evaluations = API calls made concurrently; non-trivial = calls taking a shared argument; distinct = distinct (function, shared-argument) pairs exercised concurrently.",
 		Assume: []string{
 			"the race detector reports only conflicting accesses it actually observes without an intervening happens-before edge; interleavings are sampled, not enumerated",
 			"a library without goroutines or locks can only violate this through a write into an argument or a global, which is a single conflicting access that any schedule exposes",
@@ -575,6 +575,67 @@ func C16Load(seed uint64, goroutines, iters int, out string, concFirst bool) int
 	return 0
 }
 
+// C16RandStorm: many goroutines draw random scalars at the same time from the real system source. No value may come
+// back twice (an entropy block handed to two callers) and every value must be a canonical non-zero scalar.
+func C16RandStorm(goroutines, calls int, out string) int {
+	results := make([][][32]byte, goroutines)
+	start := make(chan struct{})
+
+	var wg sync.WaitGroup
+
+	for g := 0; g < goroutines; g++ {
+		wg.Add(1)
+
+		go func(g int) {
+			defer wg.Done()
+			<-start
+
+			s := secp256k1.NewScalar()
+			buf := make([][32]byte, 0, calls)
+
+			for i := 0; i < calls; i++ {
+				s.Random()
+				buf = append(buf, [32]byte(s.Encode()))
+			}
+
+			results[g] = buf
+		}(g)
+	}
+
+	close(start)
+	wg.Wait()
+
+	res := &c16ChildResult{Goroutines: goroutines, Iters: calls, GOMAXPROCS: runtime.GOMAXPROCS(0), PerFn: map[string]int64{"Scalar.Random(storm)": int64(goroutines * calls)}}
+	seen := make(map[[32]byte]bool, goroutines*calls)
+
+	var zero [32]byte
+
+	for _, rs := range results {
+		for _, b := range rs {
+			res.Calls++
+
+			if b == zero || new(big.Int).SetBytes(b[:]).Cmp(oracle.N) >= 0 {
+				res.Mismatches = append(res.Mismatches, fmt.Sprintf("Random returned the non-canonical or zero value %x under concurrency", b))
+			}
+
+			if seen[b] && len(res.Mismatches) < 5 {
+				res.Mismatches = append(res.Mismatches, fmt.Sprintf("two concurrent Random calls returned the same scalar %x (an entropy block was handed out twice)", b))
+			}
+
+			seen[b] = true
+		}
+	}
+
+	res.Done = true
+	b, _ := json.Marshal(res)
+
+	if err := os.WriteFile(out, b, 0o644); err != nil {
+		return 3
+	}
+
+	return 0
+}
+
 // C16Canary commits a deliberate data race on harness memory, to prove that the detector is armed.
 func C16Canary() int {
 	var (
@@ -727,6 +788,7 @@ func c16Parent(p *mon.Prop, pc *mon.ParentCtx) *mon.Aggregate {
 	type cfg struct {
 		g, procs, iters int
 		concFirst       bool
+		storm           bool
 	}
 
 	var cfgs []cfg
@@ -735,13 +797,21 @@ func c16Parent(p *mon.Prop, pc *mon.ParentCtx) *mon.Aggregate {
 		for rep := 0; rep < 6; rep++ {
 			for _, g := range []int{2, 4, 16, 64} {
 				for _, pr := range []int{2, 4, 16} {
-					cfgs = append(cfgs, cfg{g, pr, 12000 / g, rep%2 == 1})
+					cfgs = append(cfgs, cfg{g: g, procs: pr, iters: 12000 / g, concFirst: rep%2 == 1})
 				}
 			}
 		}
 	} else {
-		cfgs = []cfg{{2, 2, 1500, false}, {4, 4, 800, true}, {16, 16, 300, false}, {64, 16, 100, true}, {8, 2, 500, true}, {16, 4, 300, false}, {8, 8, 300, true}, {32, 16, 100, true}}
+		cfgs = []cfg{{2, 2, 1500, false, false}, {4, 4, 800, true, false}, {16, 16, 300, false, false}, {64, 16, 100, true, false}, {8, 2, 500, true, false}, {16, 4, 300, false, false}, {8, 8, 300, true, false}, {32, 16, 100, true, false}}
 	}
+
+	// plus one storm of concurrent Random calls (duplicate detection)
+	stormCalls := 6000
+	if thorough {
+		stormCalls = 60000
+	}
+
+	cfgs = append(cfgs, cfg{g: 16, procs: 16, iters: stormCalls, storm: true})
 
 	type outcome struct {
 		c     cfg
@@ -769,8 +839,13 @@ func c16Parent(p *mon.Prop, pc *mon.ParentCtx) *mon.Aggregate {
 			seed := pc.Seed*1000 + uint64(i)
 			out := filepath.Join(pc.Scratch, fmt.Sprintf("raceload.%d.json", i))
 			race := filepath.Join(pc.Scratch, fmt.Sprintf("race.%d", i))
+			args := []string{"raceload", fmt.Sprint(seed), fmt.Sprint(cf.g), fmt.Sprint(cf.iters), out, fmt.Sprint(cf.concFirst)}
+			if cf.storm {
+				args = []string{"randstorm", fmt.Sprint(cf.g), fmt.Sprint(cf.iters), out}
+			}
+
 			logp, err, timed := runChild(
-				[]string{"raceload", fmt.Sprint(seed), fmt.Sprint(cf.g), fmt.Sprint(cf.iters), out, fmt.Sprint(cf.concFirst)},
+				args,
 				[]string{"GORACE=halt_on_error=0 log_path=" + race, fmt.Sprintf("GOMAXPROCS=%d", cf.procs)},
 				fmt.Sprintf("raceload.%d.out", i), 60*time.Minute)
 
@@ -794,7 +869,7 @@ func c16Parent(p *mon.Prop, pc *mon.ParentCtx) *mon.Aggregate {
 	var configs []string
 
 	for i, o := range outs {
-		configs = append(configs, fmt.Sprintf("G=%d,GOMAXPROCS=%d,iters=%d,seed=%d,concurrent-first=%v", o.c.g, o.c.procs, o.c.iters, o.seed, o.c.concFirst))
+		configs = append(configs, fmt.Sprintf("G=%d,GOMAXPROCS=%d,iters=%d,seed=%d,concurrent-first=%v,random-storm=%v", o.c.g, o.c.procs, o.c.iters, o.seed, o.c.concFirst, o.c.storm))
 
 		if o.timed {
 			agg.Incon("race workload %d: watchdog fired", i)
